@@ -107,7 +107,7 @@ class BlockingOracle(FOracle):
                        "non-blocking %s pushed %s at %s but it was ready at %s" % (nid, e.item.id, e.t, tp[0] + d))
 
     def on_probe(self, f, rec):
-        t, k, eid, ans, room, proc = rec
+        t, k, eid, ans, room, proc = rec[:6]
         nid = f.edge_spec[eid]["src"]
         (self.met_free if ans else self.met_full).add(nid)
         if room is not None and f.edge_spec[eid]["kind"] in ("Buffer", "Fleet"):
@@ -171,6 +171,24 @@ class BlockingOracle(FOracle):
                     order.append(key)
                 groups[key].append(p)
             pushes_now = [p for p in self.book.pushes[nid] if p[0] == now]
+            if ns.get("out_sel") == "FIRST_AVAILABLE":
+                # a worker whose probes found no room drops its item: then no out-edge at all may have had room at
+                # the moment of its last probe (also the edges it did not ask)
+                bad = None
+                for key in order:
+                    grp = groups[key]
+                    if any(p[3] for p in grp):
+                        continue
+                    rooms = grp[-1][6] if len(grp[-1]) > 6 else {}
+                    free = [e for e, r_ in rooms.items() if r_ > 0]
+                    if free:
+                        bad = (grp, free)
+                        break
+                if bad:
+                    self.v(nid, self.sig(f, nid, "wrong_decision", "dropped_with_room"),
+                           "non-blocking FIRST_AVAILABLE %s found no room after asking %s at t=%s although %s had ledger-room" % (
+                               nid, [p[2] for p in bad[0]], now, bad[1]))
+                    continue
             if kind == "Machine":
                 # items finishing in this instant
                 F = 0
